@@ -62,18 +62,23 @@ def make_case(ctx, idx):
     return {"ops": rdfspace.program(r, non_ascii=True, max_records=4)}
 
 
-def write_all(doc, fmt, box):
-    """The four destination kinds -> {kind: bytes-or-str}"""
+WRITER_OPTIONS = {"json": [{}, {"indent": 2}, {"indent": 1, "sort_keys": True}], "xml": [{}, {"force_types": True}],
+                  "rdf": [{}, {"rdf_format": "trig"}], "provn": [{}]}
+
+
+def write_all(doc, fmt, box, kw=None, tag=""):
+    """The four destination kinds -> {kind: bytes-or-str}; kw = serializer options, the same for every destination"""
     out = {}
-    out["string"] = doc.serialize(format=fmt)
+    kw = kw or {}
+    out["string"] = doc.serialize(format=fmt, **kw)
     s = io.StringIO()
-    doc.serialize(s, format=fmt)
+    doc.serialize(s, format=fmt, **kw)
     out["text_stream"] = s.getvalue()
     b = io.BytesIO()
-    doc.serialize(b, format=fmt)
+    doc.serialize(b, format=fmt, **kw)
     out["binary_stream"] = b.getvalue()
-    p = os.path.join(box, PATH_NAMES[len(fmt) % len(PATH_NAMES)] % fmt)
-    doc.serialize(p, format=fmt)
+    p = os.path.join(box, PATH_NAMES[len(fmt) % len(PATH_NAMES)] % (tag + fmt))
+    doc.serialize(p, format=fmt, **kw)
     with open(p, "rb") as f:
         out["path"] = f.read()
     return out, p
@@ -142,8 +147,31 @@ def judge(ctx, idx, case):
                 # readings of the same text may differ; the RDF cells of this document are not judged here
                 ctx.count("skipped.rdf_cells.known_finding_KF-C07-1")
                 continue
+            opts = WRITER_OPTIONS[fmt]
+            kw = opts[(len(case["ops"]) + len(fmt)) % len(opts)]
+            ctx.count("writer_options.%s.%s" % (fmt, ",".join(sorted(kw)) or "none"))
+            if fmt == "rdf":
+                # the other RDF syntaxes: every destination kind must hold that syntax (the reading matrix is claimed for TriG only)
+                syn = ("nt", "nquads", "turtle", "xml")[len(case["ops"]) % 4]
+                try:
+                    alt, _p = write_all(doc, fmt, box, {"rdf_format": syn}, tag="alt-")
+                    import rdflib
+                    from pv.checks.c13 import _iso
+                    graphs = {}
+                    for k in DESTS:
+                        g = rdflib.ConjunctiveGraph()
+                        g.parse(data=as_text(alt[k]), format=syn)
+                        graphs[k] = g
+                    for k in DESTS[1:]:
+                        if not _iso(graphs["string"], graphs[k]):
+                            problems.append({"format": fmt, "problem": "rdf_format=%s: destination %s holds another graph than the returned string" % (syn, k)})
+                    ctx.count("rdf_other_syntax.%s" % syn)
+                except Exception as e:
+                    problems.append({"format": fmt, "problem": "rdf_format=%s: a destination kind does not hold that syntax (%s: %s)" % (syn, type(e).__name__, str(e)[:160])})
+                if problems:
+                    break
             try:
-                outs, path = write_all(doc, fmt, box)
+                outs, path = write_all(doc, fmt, box, kw)
             except Exception as e:
                 problems.append({"format": fmt, "problem": "a destination kind raised %s: %s" % (type(e).__name__, str(e)[:200])})
                 break
